@@ -914,10 +914,29 @@ def run(ctx):
     if missing and not any_fail:
         raise tlc.TLCError('control character names never sent: %s' % sorted(missing))
     stats['nontrivial'] = sum(1 for j in jobs for lab, s in j['steps'] if s['peerGot'] or s['logAll'] or s['logSend'] or s['logRead'])
-    ctx.note('%d walks on fresh real objects, %d steps (planned %d: every transition of the four graphs at least once) in %.0fs: %s; '
-             '%d control names sent (%s); %d walks not carried out; SPEC-DRIFT/flaky %d' % (
+    ctx.note('%d walks on fresh real objects, %d steps (planned %d: every transition of the four graphs and of the seven environment '
+             'graphs at least once) in %.0fs: %s; %d control names sent (%s); %d walks not carried out; SPEC-DRIFT/flaky %d' % (
                  len(jobs), stats['steps'], stats['planned'], time.time() - t1, ', '.join('%s %d' % kv for kv in sorted(stats['per'].items())),
                  len(ctl_used), 'all of the table' if not missing else 'missing %s' % sorted(missing), len(mach), stats['drift']))
+    env_jobs = [(j, o) for j, o in zip(jobs, outs) if j.get('env')]
+    count = lambda pred: sum(1 for j, o in env_jobs for lab, st in j['steps'][:o['steps']] if pred(j, lab, st))
+    ctx.note('environment walks: %d walks / %d steps on %s; sends after a read that ended in TIMEOUT (timeout 0 / 0.05 s; expect([TIMEOUT, ..]) '
+             'and read_nonblocking) or EOF or a match (timeout 30 / None / default): %d, of them larger than the transport buffers (20 kB - 4 MB, '
+             'the peer reads only once the sender\'s buffer is full): %d; sends to a peer that shut its output side down and keeps reading '
+             '(socket shutdown(SHUT_WR); Popen child pointing fd 1+2 at /dev/null, reader thread joined): %d; sends that the environment '
+             'makes fail: peer gone %d, object closed / sendeof() %d, peer not reading + user timeout on a socket (part of the payload '
+             'delivered) %d; awaited reads %d, awaited calls cancelled by task.cancel() / asyncio.wait_for %d, timed out %d, output arriving '
+             'between two calls %d (taken in at once by a transport that nobody paused: %d)' % (
+                 len(env_jobs), sum(o['steps'] for j, o in env_jobs), ', '.join(sorted(set(o['kind'] for j, o in env_jobs if o['kind']))),
+                 count(lambda j, l, st: j['env'] == 'life' and l.split('(')[0] in SEND_OPS and st['link'] == 'up' and st['peerOpen']),
+                 count(lambda j, l, st: j['env'] == 'life' and l.split('(')[0] in SEND_OPS and st['link'] == 'up' and st['peerOpen'] and 'big' in l),
+                 count(lambda j, l, st: l.split('(')[0] in SEND_OPS and st['link'] == 'up' and not st['outOpen']),
+                 count(lambda j, l, st: l.split('(')[0] in SEND_OPS and st['link'] == 'gone'),
+                 count(lambda j, l, st: l.split('(')[0] in SEND_OPS and (st['link'] == 'closed' or not st['peerOpen'])),
+                 count(lambda j, l, st: l.startswith('Stalled')),
+                 count(lambda j, l, st: l.startswith('ARead')), count(lambda j, l, st: l.startswith('ACancel')),
+                 count(lambda j, l, st: l.startswith('ATimeout')), count(lambda j, l, st: l.startswith('Arrive')),
+                 count(lambda j, l, st: l.startswith('Arrive') and st['rd'] == 'reading')))
     if drifts:
         ctx.note('SPEC-DRIFT (not a verdict), e.g. %s' % json.dumps(drifts[0])[:300])
     if others:
@@ -934,19 +953,30 @@ def run(ctx):
     status, nviol, nknown = common.conclude(ctx)
     sample_job = jobs[len(jobs) // 2]
     evidence.write(pid, ctx.tier, ctx.seed, 'model_checking', {
-        'states': hstates + sum(len(g.nodes) for r, g in graphs),
-        'transitions': sum(r['generated'] for r in hist) + deep['generated'] + sum(g.n_edges() for r, g in graphs),
+        'states': hstates + sum(len(g.nodes) for r, g in graphs) + sum(r['distinct'] for r in ehist) + sum(len(g.nodes) for r, g in egraphs),
+        'transitions': sum(r['generated'] for r in hist) + deep['generated'] + sum(g.n_edges() for r, g in graphs) +
+                       sum(r['generated'] for r in ehist) + sum(g.n_edges() for r, g in egraphs),
         'traces_validated_against_impl': len(jobs),
         'samples': [{'transport': sample_job['transport'], 'mode': sample_job['init']['mode'], 'logcfg': sample_job['init']['logcfg'],
-                     'walk': [lab for lab, s in sample_job['steps']][:40]}],
+                     'walk': [lab for lab, s in sample_job['steps']][:40]}] + [
+            {'transport': j['transport'], 'kind': o['kind'], 'configuration': j['env'], 'mode': j['init']['mode'], 'walk': [lab for lab, s in j['steps']][:25]}
+            for j, o in (env_jobs[:1] + env_jobs[-1:])],
         'evaluations': stats['steps'], 'distinct_nontrivial': stats['nontrivial'],
         'rule': 'every transition of the TLC state graph of the last-operation configuration (per transport: mode x log configuration x '
                 'encoder state x previous operation x operation with payload class) is taken at least once by a walk on a fresh real '
                 'object; after each step peer bytes, three logs (value, type), flush counts and return value are compared with the '
-                'successor state; non-trivial = the step puts bytes on the wire or text into a log',
-        'exhaustive': True, 'graph_transitions': sum(g.n_edges() for r, g in graphs), 'per_transport_steps': stats['per'],
+                'successor state; non-trivial = the step puts bytes on the wire or text into a log.  The same for the seven graphs of the '
+                'environment configurations (life: pty / fd / popen / socket; await: pty / fd / socket), whose transitions also are reads '
+                'ending in TIMEOUT / EOF, the peer shutting its output side down / going away, close(), sends that fail (the exception, '
+                'what reached the peer - a proper prefix of the failing piece -, the send log) and awaited calls on a virtual-time asyncio '
+                'loop (matched / cancelled from outside / timed out) with output arriving between them (read log, pending text)',
+        'exhaustive': True, 'graph_transitions': sum(g.n_edges() for r, g in graphs) + sum(g.n_edges() for r, g in egraphs),
+        'environment_graphs': {'%s/%s' % (p, tr): {'states': len(g.nodes), 'transitions': g.n_edges()} for (tr, p), (r, g) in zip(envs, egraphs)},
+        'environment_history_states': {'%s/%s' % (p, tr): r['distinct'] for (tr, p), r in zip(envs, ehist)},
+        'environment_steps': sum(o['steps'] for j, o in env_jobs),
+        'per_transport_steps': stats['per'],
         'history_states': {tr: r['distinct'] for tr, r in zip(TRANSPORTS, hist)}, 'history_max_ops': maxops, 'history_deep': {'transport': 'pty', 'max_ops': maxops + 1, 'states': deep['distinct']},
-        'model_mutants_rejected': dict(zip(sorted(BUGS), caught)), 'control_names_sent': sorted(ctl_used),
+        'model_mutants_rejected': dict(list(zip(sorted(BUGS), caught)) + list(zip(sorted(ENV_BUGS), ecaught))), 'control_names_sent': sorted(ctl_used),
         'checker_cmd': hist[0]['cmd'], 'known_findings_hit': nknown, 'spec_drift': stats['drift'], 'walks_not_carried_out': len(mach),
     }, assumptions=[
         'the peer is in raw mode (pty) or a plain pipe / socket: what it reports is byte for byte what was written; barrier markers written '
@@ -955,7 +985,20 @@ def run(ctx):
         'SocketSpawn have none',
         'write granularity of the logs (one or two write() calls per operation) is not part of the property; contents, order, type and one '
         'flush per write are',
-        'blocking descriptors: one os.write / sendall delivers the whole payload while the peer reads concurrently',
+        'blocking descriptors: one os.write / sendall delivers the whole payload while the peer reads concurrently; in the environment '
+        'walks the peer of a socket reads a payload larger than the buffers only once the sender\'s buffer is full (or the call is over), so '
+        'that a socket left non-blocking shows on every run',
+        'a send-family call may fail only when the environment makes it fail (peer gone, object closed by the caller, peer not reading on a '
+        'socket with a user timeout).  For such a call the send log must hold every send() that was attempted, completely - a prefix of what '
+        'the call was asked to send, not empty, covering every piece of which a part reached the peer (PopenSpawn.sendline is two send()s: '
+        'when the first fails the separator is not attempted and not logged; on the other transports text and separator are one piece)',
+        'a pty master accepts writes after the child has gone, so "peer gone" makes sends fail on pipes and sockets only; awaited EOF is not '
+        'in the histories (asyncio closes the object then); awaited calls need a descriptor, which PopenSpawn does not have',
+        'the read log must hold what the object has taken into its buffer (what matching is given), when it takes it in: output arriving '
+        'while no awaited call is waiting is logged at once if the transport is reading (nobody paused it after a cancellation from '
+        'outside), with the next read otherwise',
+        'a socket\'s own timeout being left as it was found is stated by C06; here a change is noted (not judged) as the precondition of '
+        'the truncated delivery that C08 forbids',
     ], wall_s=ctx.wall(), violations=nviol)
     return status
 
